@@ -351,6 +351,13 @@ pub fn reference(case: &CkCase, b: &Built) -> RefRun {
     let mut muts: Vec<Vec<(Vec<W>, Vec<W>)>> = case.sols.iter().map(|s| s.mutations.clone()).collect();
     let append = |muts: &mut Vec<Vec<(Vec<W>, Vec<W>)>>, passes: &[&SolPass]| -> Option<Vec<(u16, SolExpect)>> {
         let mut bad = vec![];
+        // one value per (contract, key) over the whole set, declared or computed
+        let mut proposed: BTreeMap<(u8, Vec<W>), Vec<W>> = BTreeMap::new();
+        for (si, s) in case.sols.iter().enumerate() {
+            for (k, v) in &muts[si] {
+                proposed.insert((s.contract, k.clone()), v.clone());
+            }
+        }
         for (si, p) in passes.iter().enumerate() {
             let mut keys: BTreeSet<Vec<W>> = muts[si].iter().map(|m| m.0.clone()).collect();
             let mut failed = false;
@@ -360,6 +367,10 @@ pub fn reference(case: &CkCase, b: &Built) -> RefRun {
                     Some(ms) => {
                         for m in ms {
                             if !keys.insert(m.0.clone()) {
+                                failed = true;
+                            }
+                            let slot = (case.sols[si].contract, m.0.clone());
+                            if *proposed.entry(slot).or_insert_with(|| m.1.clone()) != m.1 {
                                 failed = true;
                             }
                             muts[si].push(m);
